@@ -1037,6 +1037,32 @@ class BitVec:
                     bits = b_or(self.bv(zt[1]))
                     return [bits if zt[0] == 'ne' else b_not(bits)]
             # arithmetic and ordering: unknown function of the operand bits
+            if op in ('Lt', 'Le', 'Gt', 'Ge', 'Eq', 'Ne'):
+                # leading_zeros(v) / trailing_zeros(v) against a constant is a test of a run of bits of v
+                for lhs, rhs, flip in ((x[2], x[3], False), (x[3], x[2], True)):
+                    if lhs[0] == 'call' and lhs[1] in ('leading_zeros', 'trailing_zeros') and rhs[0] == 'c' and isinstance(rhs[1], int):
+                        vb_ = self.bv(lhs[2][0])
+                        wv = len(vb_)
+                        seq = list(reversed(vb_)) if lhs[1] == 'leading_zeros' else list(vb_)
+                        c_ = rhs[1]
+                        op2 = op if not flip else {'Lt': 'Gt', 'Le': 'Ge', 'Gt': 'Lt', 'Ge': 'Le', 'Eq': 'Eq', 'Ne': 'Ne'}[op]
+
+                        def at_least(n_):     # count >= n_: the first n_ bits of the run are clear
+                            if n_ <= 0:
+                                return 1
+                            if n_ > wv:
+                                return 0
+                            return b_not(b_or(seq[:n_]))
+                        if op2 == 'Ge':
+                            return [at_least(c_)]
+                        if op2 == 'Gt':
+                            return [at_least(c_ + 1)]
+                        if op2 == 'Lt':
+                            return [b_not(at_least(c_))]
+                        if op2 == 'Le':
+                            return [b_not(at_least(c_ + 1))]
+                        eq_ = b_and([at_least(c_), b_not(at_least(c_ + 1))])
+                        return [eq_ if op2 == 'Eq' else b_not(eq_)]
             a, b = self.bv(x[2]), self.bv(x[3])
             w = self.width(ty) or 1
             t = b_top(a + b)
@@ -1104,6 +1130,19 @@ class BitVec:
                 v = sum(bit << i for i, bit in enumerate(bb))
                 r = conc_intfn(x[1], v, ty_of(ch))
                 return [(r >> i) & 1 for i in range(w)]
+            if t is not None and k == 'call' and x[1] in ('leading_zeros', 'trailing_zeros') and len(chbits) == 1:
+                # determined by the known bits alone when the first set bit (from the relevant end) is known set and
+                # everything before it is known clear
+                bb = chbits[0][1]
+                seq = list(reversed(bb)) if x[1] == 'leading_zeros' else list(bb)
+                cnt_ = 0
+                for bit in seq:
+                    if bit == 0:
+                        cnt_ += 1
+                        continue
+                    if bit == 1:
+                        return [(cnt_ >> i) & 1 for i in range(w)]
+                    break
             if t is None:
                 if k == 'idx' and len(chbits) == 1:
                     ix_ = sum(bit << i for i, bit in enumerate(chbits[0][1]))
